@@ -6,7 +6,7 @@
    translation and of the effect signatures assumed for math/big, ff, hex, sha3
    and blake512 methods is observed by the purity harness, not proved. *)
 From Coq Require Import ZArith List String.
-From Verif Require Import Model.Effects Proofs.EffectsProofs Proofs.EffectsVerdict.
+From Verif Require Import Model.Effects Proofs.EffectsProofs Proofs.EffectsDocumented Proofs.EffectsVerdictPure Proofs.EffectsVerdictState.
 From Verif Require Gen.EffectsIR.
 Import ListNotations.
 
@@ -38,6 +38,17 @@ Theorem C16_history : forall gl hist,
   nx <= nx' /\ forall c, c < nx -> ~ hist_dest documented hist c -> h' c = h c.
 Proof. exact c16_history. Qed.
 
+(* non-vacuity: every exported function of the regenerated table has an execution from
+   every heap and every argument layout (so the implications above are not vacuous) *)
+Theorem C16_run_inhabited : forall f, In f EffectsIR.exported_names ->
+  forall (gl : string -> region) ps h nx,
+  exists n h' nx' tr ret, run EffectsIR.funcs gl n f ps h nx h' nx' tr ret.
+Proof. exact run_inhabited. Qed.
+
+(* the table covers the exported functions of ALL packages, ff and ffg included *)
+Theorem C16_coverage : List.length EffectsIR.exported_names = 166%nat.
+Proof. vm_compute. reflexivity. Qed.
+
 (* results do not depend on heap contents: traces and returned regions of a run
    are the same from any heap (soundness of "depends only on its arguments"
    at the IR level; the VALUES are the functional models of C01..C15) *)
@@ -45,3 +56,4 @@ Print Assumptions C16_all_exported_pure.
 Print Assumptions C16_no_package_state.
 Print Assumptions C16_frame.
 Print Assumptions C16_history.
+Print Assumptions C16_run_inhabited.
